@@ -127,6 +127,13 @@ class FuncVal:
         self.node, self.closure = node, closure
 
 
+class NativeFn:
+    """a callable value supplied by a library contract (e.g. joblib's Parallel(...) object, delayed(f)): fn(E, st, args, kwargs, node)"""
+
+    def __init__(self, name, fn):
+        self.name, self.fn = name, fn
+
+
 class BoundMethod:
     def __init__(self, recv, name):
         self.recv, self.name = recv, name
@@ -479,11 +486,11 @@ class Engine:
         return s.check() != z3.unsat
 
     # ------------------------------------------------------------------ running a function
-    def run_function(self, fn, st, args, kwargs=None, cls=None):
+    def run_function(self, fn, st, args, kwargs=None, cls=None, closure=None):
         """bind parameters and execute the body; returns list of Outcome (return/raise)"""
         kwargs = dict(kwargs or {})
         params = fn.args.args
-        env = {}
+        env = dict(closure) if closure else {}      # a nested function reads the variables of the defining scope
         pos = list(args)
         names = [a.arg for a in params]
         defaults = fn.args.defaults
@@ -1484,6 +1491,8 @@ class Engine:
             fv = st.env.get(f.id)
             if isinstance(fv, FuncVal):
                 return self.call_funcval(fv, args, kwargs, st)
+            if isinstance(fv, NativeFn):
+                return fv.fn(self, st, args, kwargs, e)
             return self.call_named(f.id, args, kwargs, st, e)
         if isinstance(f, ast.Attribute):
             recv = self.eval(f.value, st)
@@ -1500,6 +1509,8 @@ class Engine:
         fv = self.eval(f, st)
         if isinstance(fv, FuncVal):
             return self.call_funcval(fv, args, kwargs, st)
+        if isinstance(fv, NativeFn):
+            return fv.fn(self, st, args, kwargs, e)
         return self.unknown_call(unparse(f), args, kwargs, st, e)
 
     def eval_args(self, e, st):
@@ -1535,7 +1546,7 @@ class Engine:
         # closures read the defining environment
         st.env = dict(fv.closure)
         try:
-            outs = self.run_function(fv.node, st, args, kwargs, cls=self.cur_cls_stack[-1] if self.cur_cls_stack else None)
+            outs = self.run_function(fv.node, st, args, kwargs, cls=self.cur_cls_stack[-1] if self.cur_cls_stack else None, closure=fv.closure)
         finally:
             st.env = saved
         return self.join_call(outs, st)
